@@ -54,7 +54,17 @@ class Registry(object):
         inst.b.c = self.make("a.b.c")
         holder = Nested()
         holder.a = inst
+        # the registered instance also offers an attribute path spelled like the registered function 'ns.f' (the function is the one registered under that name)
+        holder.ns = Nested()
+        holder.ns.f = self.decoy("ns.f")
+        holder.f = self.decoy("f")
         d.register_instance(holder)
+
+    def decoy(self, name):
+        def fn(*a, **k):
+            self.log.append(("INSTANCE-ATTRIBUTE-INSTEAD-OF-REGISTERED-FUNCTION:%s" % name, list(a), dict(k)))
+            return "wrong-callable"
+        return fn
 
     def make(self, name, generation=0):
         def fn(*a, **k):
